@@ -91,3 +91,36 @@ Print Assumptions C11_kernels_generated.
 Theorem C11_lock_sum_generated : forall now ls, K__sumLockedBalance now (map glb_of ls) = sum_locks now ls.
 Proof. exact gen_sumLockedBalance. Qed.
 Print Assumptions C11_lock_sum_generated.
+
+(* the two keeper functions through which tokens leave a subaccount are generated from x/subaccount/keeper/balance.go as functions on the
+   state they reach through the keeper (account summary, unlocked total, the two bank balances; SendCoins = guarded transfer) and are the
+   model's computations: withdrawUnlocked (the body of sub_withdraw_unlocked, and the model's handler is that function applied to the
+   chain state) and withdrawLockedAndUnlocked (the subaccount part of sub_wager) *)
+Theorem C11_withdraw_handlers_generated :
+  (forall x unl sb ob,
+     K_subwd_withdrawUnlocked (subwd_state x unl sb ob) =
+     let w := Z.min (Z.min (sub_available x) (zmax0 (unl - sa_wd x))) sb in
+     if w =? 0 then None else
+     match sub_withdraw x w with
+     | None => None
+     | Some x' => if sb <? w then None else Some (subwd_state x' unl (sb - w) (ob + w))
+     end) /\
+  (forall x unl sb ob d,
+     K_subwd_withdrawLockedAndUnlocked (subwd_state x unl sb ob) d =
+     if Z.min (Z.min (sub_available x) sb) d <? d then None else
+     if sb <? d then None else
+     match sub_withdraw x d with None => None | Some x' => Some (subwd_state x' unl (sb - d) (ob + d)) end) /\
+  (forall s owner x, sub_by_owner (c_subs s) owner = Some x ->
+     sub_withdraw_unlocked s owner =
+     match K_subwd_withdrawUnlocked (subwd_state x (unlocked_total (c_now s) x) (bget (c_bank s) (sub_addr x)) (bget (c_bank s) owner)) with
+     | None => None
+     | Some st => match sub_withdraw x (bget (c_bank s) (sub_addr x) - S_subwd_SubBal st) with
+                  | None => None
+                  | Some x' => match pay (c_bank s) (sub_addr x) owner (bget (c_bank s) (sub_addr x) - S_subwd_SubBal st) with
+                               | None => None
+                               | Some b => Some (set_bank (with_subs s (set_sub (c_subs s) x')) b)
+                               end
+                  end
+     end).
+Proof. split; [exact gen_withdrawUnlocked|split; [exact gen_withdrawLockedAndUnlocked|exact model_is_withdrawUnlocked]]. Qed.
+Print Assumptions C11_withdraw_handlers_generated.
